@@ -39,7 +39,7 @@ PROPS["C14"] = dict(
     phases=dict(quick=[enum(8), rc(8, 3000)], thorough=[enum(16), rc(16, 50000)]),
     rule=("cases: file maps (1-4 files) whose contents are strings over the scanner's significant characters, "
           "concatenated documented spellings and near-misses with/without separators, raw bytes, include layouts (one file name agrees with "
-          "the main file's up to a NUL byte; files may end in a directive), 1/40 of the texts preceded by more than 65535 newlines; "
+          "the main file's up to a NUL byte; 'a' and './a' are two files; files may end in a directive and may start with a byte order mark, '#!', CR LF or NUL), 1/40 of the texts preceded by more than 65535 newlines; "
           "plus every string up to the enumerated length over a 12-character alphabet. Oracle: reference maximal-munch "
           "lexer with include splicing (kind, text, file, end line, one final EOF); committed lex.yy.c and a flex-generated "
           "scanner must both agree with it and with each other (output digest). Non-trivial: the reference stream has >=2 "
@@ -62,7 +62,7 @@ PROPS["C15"] = dict(
     harness="p_scan",
     phases=dict(quick=[enum(8), rc(8, 12000)], thorough=[enum(16), rc(16, 150000)]),
     rule=("cases: every include graph over <=3 (quick) / <=4 (thorough) files with <=2 include directives per file, targets "
-          "= any file, itself, an absent name or no quoted name, main present/absent; plus random graphs up to 8 files x 4 "
+          "= any file, itself, an absent name (also the empty name) or no quoted name, main present/absent; plus random graphs up to 8 files x 4 "
           "directives (an eighth with names that agree up to an embedded NUL byte) and include chains of 33-45 files. Oracle: reference recursive include resolver with an active stack: token stream, multiset of "
           "(error type, file, line range), file requests of compile() as a set. Non-trivial: the graph has a cycle, a "
           "missing target/main or a file included more than once; distinct by content hash."),
@@ -165,7 +165,7 @@ PROPS["C16"] = dict(
     rule=("cases: (accept direction) typed random programs, two thirds of them using neither WHILE nor GOTO with LOOP bodies that assign "
           "their own bound, a third with the library macros (which expand to LOOPs and assignments only), a twelfth with ~256-register frames. Oracle: the EXEC call graph of the emitted code is acyclic, the activation stack never exceeds definitions+1 "
           "after any instruction (also in two further runs of a copy after reset(), from the middle and from the end of a run), LOOP-only programs halt within the budget proportional to the reference step count and end in the "
-          "reference state. (reject direction, harness p_accept) self/forward/mutual references must be rejected unless an earlier "
+          "reference state. (reject direction, harness p_accept; programs of 0-2 parameters, calls with the right number of arguments, none, or one too many) self/forward/mutual references must be rejected unless an earlier "
           "complete definition of the name exists. Non-trivial: LOOP-only program with nesting >=2 whose body assigns the bound and which "
           "iterates, or a general program reaching call depth >=3, or a rejected reference attempt; distinct by content hash."),
     min_nontrivial=dict(quick=300, thorough=5000),
@@ -266,8 +266,8 @@ PROPS["C02"] = dict(
 PROPS["C05"] = dict(
     harness="p_dbg",
     phases=dict(quick=[enum(8), rc(8, 1500)], thorough=[dict(kind="enum", shards=16, flavour="fast"), rc(16, 20000), rc(16, 40000, flavour="fast", seed_offset=100)]),
-    rule=("cases: histories over {execute, executeSingle(xk), stepping on/off, enable/disable(location from the available ones and bogus "
-          "ones), enable-all, clear, reads} of length 3-40 on generated programs (canonical and free layout, several sites per line, calls in loops), "
+    rule=("cases: histories over {execute, executeSingle(xk), step-until-done (the loop while(!isDone()) executeSingle()), stepping on/off, enable/disable(location from the available ones, bogus "
+          "ones and any location the program's tables name), enable-all, clear, reads} of length 3-40 on generated programs (canonical and free layout, several sites per line, calls in loops), "
           "plus ALL histories of length <=5 (quick) / <=6 (thorough) over an 8-letter alphabet on 7 fixed small programs, plus a sweep "
           "over resume lengths on a long-running fixed program (step k instructions by hand for every k in 0..1100, enable a late "
           "line, execute twice). Oracle (metamorphic): the uninterrupted run of a second VM recorded as instruction-pointer path with a digest of all activations' "
@@ -443,7 +443,7 @@ PROPS["C18"] = dict(
     phases=dict(quick=[rc(8, 50), rc(8, 50, flavour="tsan", seed_offset=100)],
                 thorough=[rc(8, 1000), rc(8, 700, flavour="tsan", seed_offset=100)]),
     rule=("cases: sequences of 2-6 compile inputs (valid programs with and without user macros/temporaries/loops, priority-sensitive "
-          "&/* expressions, 2-edit mutants, token soup; 1-3 files; a third of the inputs are near copies of the previous one with one "
+          "&/* expressions, 2-edit mutants, token soup, a sixth preceded by a macro whose pattern is not prefix-deterministic; 1-3 files; a third of the inputs are near copies of the previous one with one "
           "number - preferably a macro priority - or one identifier changed) and 1-8 threads; every case runs in a forked child, so the "
           "case is the complete history of its process. Oracle: canonical serialisation of everything compile() returns (instructions field-wise, "
           "stack maps, both tables, errors, file requests) plus two bounded VM runs (plain; stepping with a breakpoint). (a) history "
